@@ -1,6 +1,6 @@
 // C44: explicit configuration is never overridden by network defaults.
 //
-// Op line:  cfg <net> <peers> <electrum> <contracts>
+// Op line:  cfg <net> <peers> <electrum> <contracts> <timeouts>
 //
 //	net:       m no network flag | M --mainnet | t --testnet | d --developer |
 //	           x --testnet --developer (rejected by cobra) | n ReadConfig with a nil flag set
@@ -9,12 +9,19 @@
 //	           LightRelayMaintainerProxy TokenStaking WalletProposalValidator), each
 //	           - unset | f file | F flag | b both | x file value that is not a hex address
 //
+//	timeouts:  5 characters, the other `bitcoin.electrum.*` values (ConnectTimeout ConnectRetryTimeout
+//	           RequestTimeout RequestRetryTimeout KeepAliveInterval), each - unset | f file | F flag | b both
+//
+// Default contract addresses: where the checkout embeds none, the harness assigns synthetic ones to
+// the exported package variables the resolver reads (…/gen.RandomBeaconAddress etc.) before any case.
+//
 // Every case: fresh viper instance (viper.Reset), fresh cobra command built like the client
 // commands (cmd.initGlobalFlags + cmd.initFlags through the verif hook), a config file written to
 // a temp dir, the real Config.ReadConfig.
 //
 // Observation: rc=<ok|err:validation|err:flags|err:other> eth=<n> btc=<n> peers=<file|flag|default:<network>|none|other>
 // electrum=<file|flag|default:<btc network>|none|other> contracts=<8 x f|F|D|x|-|?>
+// etimeouts=<5 x f|F|d (the flag's default value)|0 (zero)|?>
 package main
 
 import (
@@ -23,6 +30,7 @@ import (
 	"path/filepath"
 	"reflect"
 	"strings"
+	"time"
 
 	"github.com/spf13/cobra"
 	"github.com/spf13/viper"
@@ -33,6 +41,7 @@ import (
 	"github.com/keep-network/keep-core/config"
 	"github.com/keep-network/keep-core/config/network"
 	"github.com/keep-network/keep-core/pkg/bitcoin"
+	"github.com/keep-network/keep-core/pkg/bitcoin/electrum"
 	chainEthereum "github.com/keep-network/keep-core/pkg/chain/ethereum"
 	ethereumBeacon "github.com/keep-network/keep-core/pkg/chain/ethereum/beacon/gen"
 	ethereumEcdsa "github.com/keep-network/keep-core/pkg/chain/ethereum/ecdsa/gen"
@@ -42,16 +51,51 @@ import (
 
 type contract struct{ name, def string }
 
-var contracts = []contract{
-	{chainEthereum.RandomBeaconContractName, ethereumBeacon.RandomBeaconAddress},
-	{chainEthereum.WalletRegistryContractName, ethereumEcdsa.WalletRegistryAddress},
-	{chainEthereum.BridgeContractName, ethereumTbtc.BridgeAddress},
-	{chainEthereum.MaintainerProxyContractName, ethereumTbtc.MaintainerProxyAddress},
-	{chainEthereum.LightRelayContractName, ethereumTbtc.LightRelayAddress},
-	{chainEthereum.LightRelayMaintainerProxyContractName, ethereumTbtc.LightRelayMaintainerProxyAddress},
-	{chainEthereum.TokenStakingContractName, ethereumThreshold.TokenStakingAddress},
-	{chainEthereum.WalletProposalValidatorContractName, ethereumTbtc.WalletProposalValidatorAddress},
+var contracts []contract
+
+var synthesizedDefaults = 0
+
+func defaultAddr(i int) string { return fmt.Sprintf("0x%039dd", i+1) }
+
+func init() {
+	ptrs := []*string{
+		&ethereumBeacon.RandomBeaconAddress, &ethereumEcdsa.WalletRegistryAddress, &ethereumTbtc.BridgeAddress,
+		&ethereumTbtc.MaintainerProxyAddress, &ethereumTbtc.LightRelayAddress, &ethereumTbtc.LightRelayMaintainerProxyAddress,
+		&ethereumThreshold.TokenStakingAddress, &ethereumTbtc.WalletProposalValidatorAddress,
+	}
+	names := []string{
+		chainEthereum.RandomBeaconContractName, chainEthereum.WalletRegistryContractName, chainEthereum.BridgeContractName,
+		chainEthereum.MaintainerProxyContractName, chainEthereum.LightRelayContractName,
+		chainEthereum.LightRelayMaintainerProxyContractName, chainEthereum.TokenStakingContractName,
+		chainEthereum.WalletProposalValidatorContractName,
+	}
+	for i, p := range ptrs {
+		// leave one contract (the last) without a default so that the "no default embedded" path stays covered
+		if *p == "" && i != len(ptrs)-1 {
+			*p = defaultAddr(i)
+			synthesizedDefaults++
+		}
+		contracts = append(contracts, contract{names[i], *p})
+	}
 }
+
+type timeoutField struct {
+	key      string
+	flag     string
+	get      func(*config.Config) time.Duration
+	flagDflt time.Duration
+}
+
+var timeoutFields = []timeoutField{
+	{"ConnectTimeout", "bitcoin.electrum.connectTimeout", func(c *config.Config) time.Duration { return c.Bitcoin.Electrum.ConnectTimeout }, electrum.DefaultConnectTimeout},
+	{"ConnectRetryTimeout", "bitcoin.electrum.connectRetryTimeout", func(c *config.Config) time.Duration { return c.Bitcoin.Electrum.ConnectRetryTimeout }, electrum.DefaultConnectRetryTimeout},
+	{"RequestTimeout", "bitcoin.electrum.requestTimeout", func(c *config.Config) time.Duration { return c.Bitcoin.Electrum.RequestTimeout }, electrum.DefaultRequestTimeout},
+	{"RequestRetryTimeout", "bitcoin.electrum.requestRetryTimeout", func(c *config.Config) time.Duration { return c.Bitcoin.Electrum.RequestRetryTimeout }, electrum.DefaultRequestRetryTimeout},
+	{"KeepAliveInterval", "bitcoin.electrum.keepAliveInterval", func(c *config.Config) time.Duration { return c.Bitcoin.Electrum.KeepAliveInterval }, electrum.DefaultKeepAliveInterval},
+}
+
+func fileTimeout(i int) time.Duration { return time.Duration(101+i) * time.Second }
+func flagTimeout(i int) time.Duration { return time.Duration(201+i) * time.Second }
 
 const (
 	filePeer     = "/ip4/10.0.0.1/tcp/3919/ipfs/16Uiu2HAmFilePeerFilePeerFilePeerFilePeerFilePeerFile"
@@ -74,14 +118,14 @@ func sameSet(a, b []string) bool {
 
 func exec(op string) (string, string) {
 	fs := strings.Fields(op)
-	if len(fs) != 5 || fs[0] != "cfg" || len(fs[1]) != 1 || !strings.Contains("mMtdxn", fs[1]) ||
+	if len(fs) != 6 || fs[0] != "cfg" || len(fs[5]) != len(timeoutFields) || strings.Trim(fs[5], "-fFb") != "" || len(fs[1]) != 1 || !strings.Contains("mMtdxn", fs[1]) ||
 		len(fs[2]) != 1 || !strings.Contains("-fFbe", fs[2]) || len(fs[3]) != 1 || !strings.Contains("-fFb", fs[3]) ||
 		len(fs[4]) != len(contracts) || strings.Trim(fs[4], "-fFbx") != "" {
 		return "bad-op", "bad"
 	}
-	net, peers, electrum, cs := fs[1], fs[2], fs[3], fs[4]
+	net, peers, electrum, cs, ts := fs[1], fs[2], fs[3], fs[4], fs[5]
 	nilFlags := net == "n"
-	if nilFlags && (peers == "F" || peers == "b" || electrum == "F" || electrum == "b" || strings.ContainsAny(cs, "Fb")) {
+	if nilFlags && (peers == "F" || peers == "b" || electrum == "F" || electrum == "b" || strings.ContainsAny(cs, "Fb") || strings.ContainsAny(ts, "Fb")) {
 		return "bad-op", "bad"
 	}
 	viper.Reset() // fresh global viper instance for every case
@@ -96,8 +140,17 @@ func exec(op string) (string, string) {
 
 	var b strings.Builder
 	b.WriteString("[ethereum]\nURL = \"ws://eth.example:8546\"\nKeyFile = \"/tmp/keyfile\"\n")
+	esec := ""
 	if electrum == "f" || electrum == "b" {
-		fmt.Fprintf(&b, "[bitcoin.electrum]\nURL = %q\n", fileElectrum)
+		esec += fmt.Sprintf("URL = %q\n", fileElectrum)
+	}
+	for i, tf := range timeoutFields {
+		if ts[i] == 'f' || ts[i] == 'b' {
+			esec += fmt.Sprintf("%s = %q\n", tf.key, fileTimeout(i).String())
+		}
+	}
+	if esec != "" {
+		b.WriteString("[bitcoin.electrum]\n" + esec)
 	}
 	b.WriteString("[network]\nPort = 3919\n")
 	switch peers {
@@ -166,6 +219,11 @@ func exec(op string) (string, string) {
 		for i, c := range contracts {
 			if cs[i] == 'F' || cs[i] == 'b' {
 				args = append(args, "--"+config.GetDeveloperContractAddressKey(c.name), flagAddr(i))
+			}
+		}
+		for i, tf := range timeoutFields {
+			if ts[i] == 'F' || ts[i] == 'b' {
+				args = append(args, "--"+tf.flag, flagTimeout(i).String())
 			}
 		}
 		command.SetArgs(args)
@@ -249,18 +307,36 @@ func exec(op string) (string, string) {
 			cobs[i] = '?'
 		}
 	}
+	tobs := make([]byte, len(timeoutFields))
+	for i, tf := range timeoutFields {
+		switch v := tf.get(cfg); {
+		case v == fileTimeout(i):
+			tobs[i] = 'f'
+		case v == flagTimeout(i):
+			tobs[i] = 'F'
+		case v == tf.flagDflt:
+			tobs[i] = 'd'
+		case v == 0:
+			tobs[i] = '0'
+		default:
+			tobs[i] = '?'
+		}
+		if (ts[i] != '-') && strings.HasPrefix(eobs, "default:") {
+			tags["timeouts-with-default-url"] = true
+		}
+	}
 	tags["net-"+net] = true
 	if rc != "ok" {
 		tags["rc-err"] = true
 	}
 	var ks []string
-	for _, k := range []string{"net-m", "net-M", "net-t", "net-d", "net-n", "peers-explicit", "peers-default", "electrum-explicit", "electrum-default", "contract-explicit", "contract-default", "rc-err"} {
+	for _, k := range []string{"net-m", "net-M", "net-t", "net-d", "net-n", "peers-explicit", "peers-default", "electrum-explicit", "electrum-default", "contract-explicit", "contract-default", "timeouts-with-default-url", "rc-err"} {
 		if tags[k] {
 			ks = append(ks, k)
 		}
 	}
-	return fmt.Sprintf("rc=%s eth=%d btc=%d peers=%s electrum=%s contracts=%s", rc,
-		int(cfg.Ethereum.Network), int(cfg.Bitcoin.Network), pobs, eobs, string(cobs)), strings.Join(ks, "+")
+	return fmt.Sprintf("rc=%s eth=%d btc=%d peers=%s electrum=%s contracts=%s etimeouts=%s", rc,
+		int(cfg.Ethereum.Network), int(cfg.Bitcoin.Network), pobs, eobs, string(cobs), string(tobs)), strings.Join(ks, "+")
 }
 
 func classify(err error) string {
@@ -283,7 +359,12 @@ func gen(r *hx.Rng, n int, tier string) []string {
 					if net == "n" && (strings.ContainsAny(p+e, "Fb") || strings.ContainsAny(c, "Fb")) {
 						continue
 					}
-					ops = append(ops, fmt.Sprintf("cfg %s %s %s %s", net, p, e, c))
+					for _, t := range []string{"-----", "fFbf-"} {
+						if net == "n" && strings.ContainsAny(t, "Fb") {
+							t = "ff-f-"
+						}
+						ops = append(ops, fmt.Sprintf("cfg %s %s %s %s %s", net, p, e, c, t))
+					}
 				}
 			}
 		}
@@ -291,7 +372,7 @@ func gen(r *hx.Rng, n int, tier string) []string {
 	letters := "-fFbx"
 	for i := 0; i < n; i++ {
 		if r.Chance(1, 20) {
-			ops = append(ops, hx.Pick(r, []string{"cfg q - - --------", "cfg m - - ---", "cfg n F - --------", "cfg m z - --------", "cfg", "cfg m - - -------y"}))
+			ops = append(ops, hx.Pick(r, []string{"cfg q - - -------- -----", "cfg m - - --- -----", "cfg n F - -------- -----", "cfg m z - -------- -----", "cfg", "cfg m - - -------y -----", "cfg m - - --------", "cfg n - - -------- F----"}))
 			continue
 		}
 		net := hx.Pick(r, []string{"m", "M", "t", "t", "d", "d", "n", "x"})
@@ -313,7 +394,17 @@ func gen(r *hx.Rng, n int, tier string) []string {
 				}
 			}
 		}
-		ops = append(ops, fmt.Sprintf("cfg %s %s %s %s", net, p, e, string(c)))
+		t := make([]byte, len(timeoutFields))
+		for j := range t {
+			t[j] = "-fFb"[r.Intn(4)]
+			if r.Chance(1, 3) {
+				t[j] = '-'
+			}
+			if net == "n" && (t[j] == 'F' || t[j] == 'b') {
+				t[j] = 'f'
+			}
+		}
+		ops = append(ops, fmt.Sprintf("cfg %s %s %s %s %s", net, p, e, string(c), string(t)))
 	}
 	return ops
 }
@@ -367,6 +458,8 @@ func facts() []string {
 	}
 	out = append(out, "strlist contractNames "+strings.Join(names, ","))
 	out = append(out, "natlist contractDefaultPresent "+strings.Join(present, ","))
+	out = append(out, fmt.Sprintf("nat contractDefaultsSynthesizedByHarness %d", synthesizedDefaults))
+	out = append(out, fmt.Sprintf("nat electrumTimeoutFields %d", len(timeoutFields)))
 	return out
 }
 
